@@ -1,0 +1,97 @@
+//go:build verif
+
+// Contracts for package imap, checked by /verif/govc (see /verif/DESIGN.md).
+// Only compiled with the build tag "verif".
+
+package imap
+
+import "time"
+
+// ---------------------------------------------------------------------------
+// C19: And is intersection. Abstract matcher for the scalar fields; list
+// fields match a message iff every element does, so intersection of two
+// criteria is concatenation of the lists.
+
+//@ pure
+func matchLarger(size, bound int64) bool { return bound == 0 || size > bound }
+
+//@ pure
+func matchSmaller(size, bound int64) bool { return bound == 0 || size < bound }
+
+// matchSince: unset (zero) bounds match everything; otherwise d must not be
+// before the bound.
+//
+//@ pure
+func matchSince(d, since time.Time) bool { return since.IsZero() || !d.Before(since) }
+
+//@ pure
+func matchBefore(d, before time.Time) bool { return before.IsZero() || d.Before(before) }
+
+//@ func intersectSince(t1, t2 time.Time) (result time.Time)
+//@   props C19
+//@   ensures forall d time.Time :: matchSince(d, result) == (matchSince(d, t1) && matchSince(d, t2))
+
+//@ func intersectBefore(t1, t2 time.Time) (result time.Time)
+//@   props C19
+//@   ensures forall d time.Time :: matchBefore(d, result) == (matchBefore(d, t1) && matchBefore(d, t2))
+
+// noListAliasing: the list fields of the two operands do not share backing
+// arrays (append may extend a slice in place; with shared spare capacity the
+// lists would overwrite each other, as for any Go code using append).
+//
+//@ pure
+func noListAliasing(a, b *SearchCriteria) bool {
+	return distinctBase(__base(a.Flag), __base(a.NotFlag)) && distinctBase(__base(a.Flag), __base(b.Flag)) && distinctBase(__base(a.Flag), __base(b.NotFlag)) &&
+		distinctBase(__base(a.NotFlag), __base(b.Flag)) && distinctBase(__base(a.NotFlag), __base(b.NotFlag)) &&
+		distinctBase(__base(a.Body), __base(a.Text)) && distinctBase(__base(a.Body), __base(b.Body)) && distinctBase(__base(a.Body), __base(b.Text)) &&
+		distinctBase(__base(a.Text), __base(b.Body)) && distinctBase(__base(a.Text), __base(b.Text)) &&
+		distinctBase(__base(a.Header), __base(b.Header)) &&
+		distinctBase(__base(a.SeqNum), __base(a.UID)) && distinctBase(__base(a.SeqNum), __base(b.SeqNum)) && distinctBase(__base(a.SeqNum), __base(b.UID)) &&
+		distinctBase(__base(a.UID), __base(b.SeqNum)) && distinctBase(__base(a.UID), __base(b.UID)) &&
+		distinctBase(__base(a.Not), __base(b.Not)) && distinctBase(__base(a.Or), __base(b.Or))
+}
+
+//@ pure
+func distinctBase(x, y uintptr) bool { return x != y || x == 0 }
+
+//@ func (criteria *SearchCriteria) And(other *SearchCriteria)
+//@   props C19
+//@   requires criteria != nil && other != nil && criteria != other
+//@   requires noListAliasing(criteria, other)
+//@   requires criteria.Larger >= 0 && other.Larger >= 0 && criteria.Smaller >= 0 && other.Smaller >= 0
+//@   ensures forall size int64 :: matchLarger(size, criteria.Larger) == (matchLarger(size, old(criteria.Larger)) && matchLarger(size, other.Larger))
+//@   ensures forall size int64 :: matchSmaller(size, criteria.Smaller) == (matchSmaller(size, old(criteria.Smaller)) && matchSmaller(size, other.Smaller))
+//@   ensures forall d time.Time :: matchSince(d, criteria.Since) == (matchSince(d, old(criteria.Since)) && matchSince(d, other.Since))
+//@   ensures forall d time.Time :: matchBefore(d, criteria.Before) == (matchBefore(d, old(criteria.Before)) && matchBefore(d, other.Before))
+//@   ensures forall d time.Time :: matchSince(d, criteria.SentSince) == (matchSince(d, old(criteria.SentSince)) && matchSince(d, other.SentSince))
+//@   ensures forall d time.Time :: matchBefore(d, criteria.SentBefore) == (matchBefore(d, old(criteria.SentBefore)) && matchBefore(d, other.SentBefore))
+//@   ensures len(criteria.Flag) == old(len(criteria.Flag)) + len(other.Flag)
+//@   ensures forall k int :: 0 <= k && k < old(len(criteria.Flag)) ==> criteria.Flag[k] == old(criteria.Flag[k])
+//@   ensures forall k int :: 0 <= k && k < len(other.Flag) ==> criteria.Flag[old(len(criteria.Flag))+k] == old(other.Flag[k])
+//@   ensures len(criteria.NotFlag) == old(len(criteria.NotFlag)) + len(other.NotFlag)
+//@   ensures forall k int :: 0 <= k && k < old(len(criteria.NotFlag)) ==> criteria.NotFlag[k] == old(criteria.NotFlag[k])
+//@   ensures forall k int :: 0 <= k && k < len(other.NotFlag) ==> criteria.NotFlag[old(len(criteria.NotFlag))+k] == old(other.NotFlag[k])
+//@   ensures len(criteria.Body) == old(len(criteria.Body)) + len(other.Body)
+//@   ensures forall k int :: 0 <= k && k < old(len(criteria.Body)) ==> criteria.Body[k] == old(criteria.Body[k])
+//@   ensures forall k int :: 0 <= k && k < len(other.Body) ==> criteria.Body[old(len(criteria.Body))+k] == old(other.Body[k])
+//@   ensures len(criteria.Text) == old(len(criteria.Text)) + len(other.Text)
+//@   ensures forall k int :: 0 <= k && k < old(len(criteria.Text)) ==> criteria.Text[k] == old(criteria.Text[k])
+//@   ensures forall k int :: 0 <= k && k < len(other.Text) ==> criteria.Text[old(len(criteria.Text))+k] == old(other.Text[k])
+//@   ensures len(criteria.Header) == old(len(criteria.Header)) + len(other.Header)
+//@   ensures forall k int :: 0 <= k && k < old(len(criteria.Header)) ==> criteria.Header[k] == old(criteria.Header[k])
+//@   ensures forall k int :: 0 <= k && k < len(other.Header) ==> criteria.Header[old(len(criteria.Header))+k] == old(other.Header[k])
+//@   ensures len(criteria.SeqNum) == old(len(criteria.SeqNum)) + len(other.SeqNum)
+//@   ensures forall k int :: 0 <= k && k < old(len(criteria.SeqNum)) ==> __same(criteria.SeqNum[k], old(criteria.SeqNum[k]))
+//@   ensures forall k int :: 0 <= k && k < len(other.SeqNum) ==> __same(criteria.SeqNum[old(len(criteria.SeqNum))+k], old(other.SeqNum[k]))
+//@   ensures len(criteria.UID) == old(len(criteria.UID)) + len(other.UID)
+//@   ensures forall k int :: 0 <= k && k < old(len(criteria.UID)) ==> __same(criteria.UID[k], old(criteria.UID[k]))
+//@   ensures forall k int :: 0 <= k && k < len(other.UID) ==> __same(criteria.UID[old(len(criteria.UID))+k], old(other.UID[k]))
+//@   ensures len(criteria.Not) == old(len(criteria.Not)) + len(other.Not)
+//@   ensures forall k int :: 0 <= k && k < old(len(criteria.Not)) ==> __same(criteria.Not[k], old(criteria.Not[k]))
+//@   ensures forall k int :: 0 <= k && k < len(other.Not) ==> __same(criteria.Not[old(len(criteria.Not))+k], old(other.Not[k]))
+//@   ensures len(criteria.Or) == old(len(criteria.Or)) + len(other.Or)
+//@   ensures forall k int :: 0 <= k && k < old(len(criteria.Or)) ==> __same(criteria.Or[k], old(criteria.Or[k]))
+//@   ensures forall k int :: 0 <= k && k < len(other.Or) ==> __same(criteria.Or[old(len(criteria.Or))+k], old(other.Or[k]))
+//@   ensures old(criteria.ModSeq) == nil && other.ModSeq != nil ==> criteria.ModSeq != nil && *criteria.ModSeq == *other.ModSeq
+//@   ensures old(criteria.ModSeq) != nil && other.ModSeq == nil ==> criteria.ModSeq == old(criteria.ModSeq)
+//@   ensures old(criteria.ModSeq) != nil && other.ModSeq != nil && old(criteria.ModSeq.MetadataName) == other.ModSeq.MetadataName && old(criteria.ModSeq.MetadataType) == other.ModSeq.MetadataType ==> criteria.ModSeq != nil && criteria.ModSeq.ModSeq >= old(criteria.ModSeq.ModSeq) && criteria.ModSeq.ModSeq >= other.ModSeq.ModSeq
